@@ -232,6 +232,15 @@ def run_case(case):
             fns.append(["red_filter", list(dict.fromkeys([a0, b0])),
                         f"xp.any(xp.asarray([{a0} == {int(rng.integers(0, sizes[a0]))}, {b0} >= {int(rng.integers(0, sizes[b0]))}]))"])
             scalar_functions.append("red_filter")
+        if case["index"] % 3 == 1:
+            # a filter that does ARITHMETIC on the category codes with negative intermediate results
+            # (adjustment limits: |c - s| <= k, c - s <= k)
+            a0 = str(rng.choice(snames))
+            b0 = str(rng.choice(cnames)) if cnames else str(rng.choice([x for x in snames if x != a0] or [a0]))
+            if a0 != b0:
+                k = int(rng.integers(0, 2))
+                fns.append(["diff_filter", [a0, b0], [f"xp.abs({b0} - {a0}) <= {k + 1}", f"{b0} - {a0} <= {k}", f"{a0} - {b0} >= {-k}", f"({b0} - {a0}) * 2 + 1 <= {2 * k + 1}"][int(rng.integers(0, 4))]])
+                add("code_difference_filters")
         # extra unrestricted variables
         if rng.random() < 0.7:
             states.append(["w", {"kind": "lin", "start": 1.0, "stop": 5.0, "n": int(rng.integers(2, 5))}])
@@ -260,7 +269,7 @@ def run_case(case):
         res["sig"] = str((ss, cs, T, nf, [f[1] for f in fns if f[0].endswith("_filter")]))
         res["nontrivial"] = any(not ref.filter_mask(t).all() for t in range(T))
         res["sample"] = {"kind": "sampled", "desc": {k: v for k, v in desc.items() if k != "tables"}}
-    res["features"] = {case["kind"]: True, "scalar_style_filter": bool(case["kind"] == "sampled" and res.get("sample", {}).get("desc", {}).get("scalar_functions"))}
+    res["features"] = {case["kind"]: True, "code_difference_filter": bool(res["counters"].get("code_difference_filters")), "scalar_style_filter": bool(case["kind"] == "sampled" and res.get("sample", {}).get("desc", {}).get("scalar_functions"))}
     res["status"] = "violated" if res["violations"] else "held"
     return res
 
